@@ -250,14 +250,12 @@ def _canon(trace):
     return trace
 
 
-_cache = {}
-
-
 def setter_model(ctx):
     """Returns (n_cases, {property: [(case, got, want)]})."""
-    key = id(ctx.repo)
-    if key in _cache:
-        return _cache[key]
+    # one model run per check run (never keyed by id(): ids are reused after garbage collection)
+    memo = ctx.__dict__.setdefault('_model_memo', {})
+    if 'setter_model' in memo:
+        return memo['setter_model']
     f = ctx.repo.method(PARAMETER, "__set__")
     per = {k: [] for k in ASPECTS}
     n = 0
@@ -281,7 +279,7 @@ def setter_model(ctx):
         if got != want:
             for p in classify(c, got, want):
                 per[p].append((c, got, want))
-    _cache[key] = (n, per)
+    memo['setter_model'] = (n, per)
     return n, per
 
 
